@@ -36,7 +36,7 @@ def consts(mode, suite, variant='ok', emit=True):
 def run_specs(ctx):
     suite = 'thorough' if ctx.thorough else 'quick'
     runs = [
-        ('chunks', consts('chunks', suite), ['ChunksOK', 'EmitChunks'], 1, None),
+        ('chunks', consts('chunks', suite), ['ChunksOK', 'ChunksAsProved', 'EmitChunks'], 1, None),
         ('pool', consts('pool', suite), MACHINE_INVS, 4, None),
         ('sym', consts('sym', suite), SYM_INVS, 4, None),
         ('post', consts('post', suite), POST_INVS, 4, None),
@@ -93,6 +93,29 @@ def check_chunk_tasks(ctx, recs):
             bad.append({'len': n, 'k': k, 'expected': r['ranges'], 'got': [[c[0], c[-1] + 1] if c else [] for c in got]})
     if bad:
         ctx.violation('chunk_tasks-mismatch', {'count': len(bad), 'first': bad[:10]})
+
+
+def run_tlaps(ctx):
+    """unbounded proof of the chunking arithmetic (spec/ChunksProof.tla) with the TLA+ proof system; AsmSched's invariant
+    ChunksAsProved ties the bounded model to the module the proof is about"""
+    import shutil
+    if shutil.which('tlapm') is None:
+        ctx.notes['tlaps'] = 'tlapm not installed: unbounded proof of the chunking arithmetic not re-checked'
+        return
+    d = ctx.scratch / 'tlaps'
+    d.mkdir(exist_ok=True)
+    shutil.copy(str(VERIF / 'spec' / 'ChunksProof.tla'), str(d / 'ChunksProof.tla'))
+    try:
+        p = subprocess.run(['tlapm', '--threads', '4', '--cleanfp', 'ChunksProof.tla'], cwd=str(d), stdout=subprocess.PIPE,
+                           stderr=subprocess.STDOUT, text=True, timeout=900)
+    except subprocess.TimeoutExpired:
+        ctx.notes['tlaps'] = 'tlapm timed out (no verdict)'
+        return
+    import re
+    m = re.search(r'All (\d+) obligations proved', p.stdout)
+    if not m:
+        raise MachineryError('TLAPS could not re-check spec/ChunksProof.tla:\n' + p.stdout[-1500:])
+    ctx.notes['tlaps'] = 'ChunksProof.tla: all %s proof obligations proved (StepPositive, AtMostK, NonEmptyConsecutive, Covers for all len, k)' % m.group(1)
 
 
 def launch(ctx, name, job):
@@ -180,6 +203,7 @@ def run(ctx):
     if len(chunks) != 65 * 16 or not probs or not hists:
         raise MachineryError('AsmSched generation incomplete: %d CHUNK, %d PROB, %d HIST' % (len(chunks), len(probs), len(hists)))
     check_chunk_tasks(ctx, chunks)
+    run_tlaps(ctx)
 
     jobs = make_jobs(ctx, probs, hists)
     with ThreadPoolExecutor(6 if ctx.thorough else 5) as ex:
